@@ -44,7 +44,7 @@ MINIMUMS = {
               'pairs:alias-redirected': 60, 'pairs:unshared': 60, 'mixed_key_dicts': 120,
               'builds_compared': 1000, 'triples': 300, 'mixed_pairs': 1000,
               'pairs_sharing_objects_by_identity': 200,
-              'late_registered_cases': 100},
+              'late_registered_cases': 100, 'identity_default_pairs': 100, 'variant_pairs': 500},
     'thorough': {'evaluations': 1000},
 }
 
@@ -52,7 +52,7 @@ LEAVES = [2, 3, -7, 2**70, 2.5, 'a', 'b', 'name with space', '', None, (2, 3), (
           b'bytes', kinds.Color.RED, kinds.Color.GREEN, kinds.two, kinds.Base, 3 + 4j]
 FNS = [kinds.node, kinds.node2, kinds.posnode, kinds.two, kinds.three, kinds.Base, kinds.Mid,
        kinds.Other, kinds.target3, kinds.PosInit, sigs.g_posonly_defaults, sigs.g_posonly_mixed,
-       sigs.g_a1_b2_va_k_vk, sigs.g_a_b_c3_k4_j, sigs.g_abc_d_va_vk]
+       sigs.g_a1_b2_va_k_vk, sigs.g_a_b_c3_k4_j, sigs.g_abc_d_va_vk, kinds.iddef, kinds.iddef]
 SWAP = {kinds.node: kinds.node2, kinds.node2: kinds.node, kinds.two: kinds.Base,
         kinds.Base: kinds.Other, kinds.Other: kinds.Base, kinds.Mid: kinds.Leaf}
 
@@ -517,6 +517,22 @@ def run_case(rng, acc):
     acc.obs('triples')
     if ab and bc[0] == 'ok' and bc[1] and ac is False:
       acc.violation('eq-not-transitive', f'a=={k1} and {k1}=={k2} but a!={k2}', witness())
+    # two equality-preserving variants of one configuration are equal to each other as well
+    judge_pair(b, c, f'{k1}~{k2}', True, acc, witness, feats)
+    acc.obs('variant_pairs')
+  # a deep copy against a twin in which an identity-compared default (sentinel object, plain
+  # instance) is made explicit: the default object must be THE default, not a copy of it
+  idn = [n for n in gen.walk(root) if isinstance(n, gen.B) and n.fn is kinds.iddef
+         and not ({'a', 'b'} <= set(n.kw)) and len(n.pos) < 2]
+  if idn:
+    try:
+      b_ = copy.deepcopy(realise(root, {}, {}, rng))
+      c_ = realise(root, {}, {'explicit-default': rng.choice(idn).uid}, rng)
+      judge_pair(b_, c_, 'deepcopy~explicit-default', True, acc, witness, feats)
+      judge_pair(c_, b_, 'explicit-default~deepcopy', True, acc, witness, feats)
+      acc.obs('identity_default_pairs')
+    except Exception as e:  # pylint: disable=broad-except
+      acc.obs('variant-failed:identity-default:' + type(e).__name__)
   # equality-breaking variants (each a single rewrite of the abstract DAG)
   from vf.checks.c10 import abstract_canon
   for kind in rng.sample(BREAKING, 3):
